@@ -74,3 +74,44 @@ package sqlite
 //@   option nosafety
 //@   monitor allFields
 //@     before call strings.Join args parts, sep : assert sep == "\x00" && len(parts) == 7 && parts[0] == tuple.SplitObject(tk.GetObject()).0 && parts[1] == tuple.SplitObject(tk.GetObject()).1 && parts[2] == tk.GetRelation() && parts[3] == tuple.ToUserParts(tk.GetUser()).0 && parts[4] == tuple.ToUserParts(tk.GetUser()).1 && parts[5] == tuple.ToUserParts(tk.GetUser()).2
+
+// ------------------------------------------------------------------ C14: ListStores paging (Go half)
+// the continuation token is the id of the first row NOT returned and the next page asks for id >= token, so the
+// statement must be ordered by exactly that column and fetch one row more than the page; a token is returned only
+// together with a full page
+// ... and only stores that are not soft-deleted are selected, whatever other filters apply (C16)
+//@ func (*Datastore).ListStores(s, ctx, options) (res, token, err)
+//@   property C14 C16
+//@   option nosafety
+//@   option defer_neutral
+//@   ensures @fullPageWithToken err == nil && token != "" ==> len(res) == options.Pagination.PageSize
+//@   ensures @queried err == nil ==> ran
+//@   monitor query
+//@     ghost ordered = false
+//@     ghost limited = false
+//@     ghost ran = false
+//@     after call (squirrel.SelectBuilder).OrderBy args _, cols : ordered = pre(len(cols) == 1 && cols[0] == "id")
+//@     before call (squirrel.StatementBuilderType).Select args _ : assert len(whereClause) >= 1 && typeIs(whereClause[0], "squirrel.Eq") && inDom(as(whereClause[0], "squirrel.Eq"), "deleted_at") && as(whereClause[0], "squirrel.Eq")["deleted_at"] == nil
+//@     before call (squirrel.SelectBuilder).Where args _, pred : assert typeIs(pred, "squirrel.And") && as(pred, "squirrel.And") == whereClause
+//@     after call (squirrel.SelectBuilder).Limit args _, n : limited = n == options.Pagination.PageSize + 1
+//@     before call (squirrel.SelectBuilder).QueryContext : assert ordered && (options.Pagination.PageSize > 0 ==> limited)
+//@     after call (squirrel.SelectBuilder).QueryContext : ran = true
+
+// ------------------------------------------------------------------ C13 / C16: ReadStartingWithUser statement (Go half)
+// the statement selects this store's tuples of the filter's object type and relation, and the user clause has one
+// alternative per user-filter entry: the entry's object type and id, and — when the entry is a userset — its relation
+// (an entry without relation constrains type and id only)
+//@ func (*Datastore).ReadStartingWithUser(s, ctx, store, filter, opts) (it, err)
+//@   property C13 C16
+//@   option nosafety
+//@   option defer_neutral
+//@   monitor statement
+//@     ghost wheres int = 0
+//@     ghost parts ref = nil
+//@     ghost pt string = ""
+//@     ghost pi string = ""
+//@     after call tuple.ToUserPartsFromObjectRelation args x returning a, b, c : parts = x ; pt = a ; pi = b
+//@     before call builtin.append args sl, add : assert len(add) == 1 && typeIs(add[0], "squirrel.Eq") && parts == u && typeIs(as(add[0], "squirrel.Eq")["user_object_type"], "string") && as(as(add[0], "squirrel.Eq")["user_object_type"], "string") == pt && as(as(add[0], "squirrel.Eq")["user_object_id"], "string") == pi && (u.GetRelation() != "" ==> inDom(as(add[0], "squirrel.Eq"), "user_relation") && as(as(add[0], "squirrel.Eq")["user_relation"], "string") == u.GetRelation()) && (u.GetRelation() == "" ==> !inDom(as(add[0], "squirrel.Eq"), "user_relation"))
+//@     before call (squirrel.StatementBuilderType).Select args _ : assert len(whereClause) >= 1 && typeIs(whereClause[0], "squirrel.Eq") && inDom(as(whereClause[0], "squirrel.Eq"), "deleted_at") && as(whereClause[0], "squirrel.Eq")["deleted_at"] == nil
+//@     before call (squirrel.SelectBuilder).Where args _, pred : assert typeIs(pred, "squirrel.And") && as(pred, "squirrel.And") == whereClause
+//@     after call (squirrel.SelectBuilder).Where : wheres = wheres + 1
